@@ -12,4 +12,4 @@ git apply -R _seed/patch.confirmed.diff
 echo "--- demo without the change (expect exit 0):"; PYTHONPATH=$wt/src /venv/bin/python _seed/demo.py > /var/tmp/demo_without.out 2>&1; echo "rc=$?"
 git apply _seed/patch.confirmed.diff
 echo "--- check against the changed tree:"
-cd /verif && VF_REPO=$wt bin/check $id "$@" 2>&1 | grep -v "^KNOWN-FINDING" | tail -6 | cut -c1-260; echo "check rc=${PIPESTATUS[0]}"
+cd ${VERIF_DIR:-/verif} && VF_REPO=$wt bin/check $id "$@" 2>&1 | grep -v "^KNOWN-FINDING" | tail -6 | cut -c1-260; echo "check rc=${PIPESTATUS[0]}"
